@@ -166,10 +166,34 @@ def samples_table(kinds):
     return t
 
 
+def _single(fx, kind):
+    """The row processed alone (cached): fingerprint of its sample, or ('error', message) when it is refused."""
+    import FlowCal.excel_ui as xl
+    if kind not in fx['single']:
+        with warnings.catch_warnings():
+            warnings.simplefilter('ignore')
+            one = xl.process_samples_table(samples_table([kind]), fx['it'], mef_transform_fxns=fx['fx'],
+                                           beads_table=fx['bt'], base_dir=fx['base'])
+        if isinstance(one['S1'], xl.ExcelUIException):
+            fx['single'][kind] = ('error', str(one['S1']))
+        else:
+            fx['single'][kind] = fingerprint(one['S1'])
+            t1 = samples_table([kind])
+            xl.add_samples_stats(t1, one)
+            fx['single_row'][kind] = {c: t1.loc['S1', c] for c in t1.columns}
+    return fx['single'][kind]
+
+
 def check_samples(kinds, seed, obs):
     import FlowCal.excel_ui as xl
     fx = fixture(seed)
     t = samples_table(kinds)
+    # The rows over unusual files are not documented faults; whether the workflow processes or refuses such a row is
+    # taken from its single-row run, and the table must treat it the same way (the statement compares with that run).
+    HEALTHY = tuple(k for k in globals()['HEALTHY'] if k not in HEALTHY_EXTRA or not (k in kinds and isinstance(_single(fx, k), tuple)))
+    refused_alone = {k: _single(fx, k)[1] for k in set(kinds) if k in HEALTHY_EXTRA and k not in HEALTHY}
+    for k in refused_alone:
+        obs.label('unusual_file_refused_alone:' + k)
     with warnings.catch_warnings():
         warnings.simplefilter('ignore')
         res = call(xl.process_samples_table, t, fx['it'], mef_transform_fxns=fx['fx'], beads_table=fx['bt'], base_dir=fx['base'])
@@ -185,20 +209,17 @@ def check_samples(kinds, seed, obs):
         if kind in HEALTHY:
             if not obs.claim('healthy_equal', hasattr(got, 'channels'), lambda: 'table %r: healthy row %s (%s) gave %r' % (kinds, sid, kind, got)):
                 continue
-            if kind not in fx['single']:
-                with warnings.catch_warnings():
-                    warnings.simplefilter('ignore')
-                    one = xl.process_samples_table(samples_table([kind]), fx['it'], mef_transform_fxns=fx['fx'],
-                                                   beads_table=fx['bt'], base_dir=fx['base'])
-                fx['single'][kind] = fingerprint(one['S1'])
-                t1 = samples_table([kind])
-                xl.add_samples_stats(t1, one)
-                fx['single_row'][kind] = {c: t1.loc['S1', c] for c in t1.columns}
-            d = fp_diff(fingerprint(got), fx['single'][kind])
+            ref1 = _single(fx, kind)
+            if not obs.claim('healthy_equal', not isinstance(ref1, tuple), lambda: 'healthy row kind %s is refused when processed alone: %r' % (kind, ref1)):
+                continue
+            d = fp_diff(fingerprint(got), ref1)
             obs.claim('healthy_equal', not d, lambda: 'table %r: healthy row %s (%s) differs from its single-row run in %r' % (kinds, sid, kind, d))
         else:
             obs.claim('row_error', isinstance(got, xl.ExcelUIException),
                       lambda: 'table %r: faulty row %s (%s) gave %r instead of a row-level error' % (kinds, sid, kind, type(got)))
+            if kind in refused_alone:
+                obs.claim('healthy_equal', str(got) == refused_alone[kind],
+                          lambda: 'table %r: row %s (%s) is refused with %r, alone with %r' % (kinds, sid, kind, str(got), refused_alone[kind]))
     # notes, statistics, histogram rows
     if len(kinds) % 2 == 0:
         # the table may already carry result columns (a previous output workbook used as input again)
